@@ -12,6 +12,9 @@
 (*   star  `*`      exactly one component, whatever its name                                         *)
 (*   ext   `*.ext`  exactly one component whose extension is ext                                     *)
 (*   dstar `**`     zero or more components (wax: a tree wildcard also matches nothing)              *)
+(*   glob  a component with wildcards inside it: `test_*.lua`, `ma?n.lua`, `te*` -- `*` is zero or   *)
+(*         more characters of the component, `?` exactly one (never a separator); `stem` holds the  *)
+(*         component pattern as written                                                             *)
 (* wax::Glob::is_match matches the WHOLE path (no implicit prefix or suffix).                        *)
 EXTENDS Integers, Sequences, FiniteSets, TLC
 
@@ -20,9 +23,20 @@ Lit(stem, ext) == [kind |-> "lit", stem |-> stem, ext |-> ext]
 Star  == [kind |-> "star", stem |-> "", ext |-> ""]
 Ext(e) == [kind |-> "ext", stem |-> "", ext |-> e]
 DStar == [kind |-> "dstar", stem |-> "", ext |-> ""]
+Glob(g) == [kind |-> "glob", stem |-> g, ext |-> ""]
 
+SegStr(s) == IF s.ext = "" THEN s.stem ELSE s.stem \o "." \o s.ext
+\* wildcards inside one component, on the characters of the component's name
+RECURSIVE GlobStr(_, _)
+GlobStr(p, s) ==
+  IF p = "" THEN s = ""
+  ELSE LET h == SubSeq(p, 1, 1) IN
+       IF h = "*" THEN GlobStr(Tail(p), s) \/ (s # "" /\ GlobStr(p, Tail(s)))
+       ELSE IF h = "?" THEN s # "" /\ GlobStr(Tail(p), Tail(s))
+       ELSE s # "" /\ SubSeq(s, 1, 1) = h /\ GlobStr(Tail(p), Tail(s))
 SegMatches(ps, seg) ==
   CASE ps.kind = "lit"  -> ps.stem = seg.stem /\ ps.ext = seg.ext
+    [] ps.kind = "glob" -> GlobStr(ps.stem, SegStr(seg))
     [] ps.kind = "star" -> TRUE
     [] ps.kind = "ext"  -> seg.ext = ps.ext
     [] OTHER -> FALSE
@@ -62,8 +76,7 @@ FilterIsLocal(cfg, k, a, s, path) == RanSet(WithFilter(cfg, k, a, s), path) \ {k
 RootExcludedUntouched(cfg, path) == ~ShouldApply(path, cfg.apply, cfg.skip) => RanSet(cfg, path) = {}
 
 \* rendering (shared by the model-checking instance and the trace specification)
-SegStr(s) == IF s.ext = "" THEN s.stem ELSE s.stem \o "." \o s.ext
-PatSegStr(p) == CASE p.kind = "lit" -> SegStr(p) [] p.kind = "star" -> "*" [] p.kind = "ext" -> "*." \o p.ext [] OTHER -> "**"
+PatSegStr(p) == CASE p.kind = "lit" -> SegStr(p) [] p.kind = "glob" -> p.stem [] p.kind = "star" -> "*" [] p.kind = "ext" -> "*." \o p.ext [] OTHER -> "**"
 RECURSIVE Join(_, _)
 Join(strs, k) == IF k > Len(strs) THEN "" ELSE IF k = Len(strs) THEN strs[k] ELSE strs[k] \o "/" \o Join(strs, k + 1)
 PathStr(path) == Join([i \in DOMAIN path |-> SegStr(path[i])], 1)
